@@ -45,7 +45,7 @@ void harness(void)
 {
 	IN(int, in_p); IN(int, in_null); IN(int, in_mask); IN(int, in_empty);
 	IN(float, in_f); IN(double, in_d); IN(uint8_t, in_y); IN(int32_t, in_i);
-	line_t li, old; uint8_t in_pre[sizeof(line_t)]; MPT_STRUCT(color) in_col; int r, changed_other = 0; size_t k;
+	line_t li, old; uint8_t in_pre[sizeof(line_t)]; MPT_STRUCT(color) in_col; int r, changed_other = 0; size_t k; V_FILL(in_pre);
 	float *fp = 0; uint8_t *bp = 0; size_t off, len;
 	H_CTYPE_INIT();
 	V_REQ(in_p >= 0 && in_p < 9);
